@@ -25,9 +25,9 @@ from vmon.refmodels import ds_ref as R
 PROPERTY = "C05"
 LEVEL = "exploration"
 RULE = ("random cases: distributed_shampoo graft types 1..6 x representation {full, compressed +r, compressed -r, FD sketch (x64 off), "
-        "pmap int16-quantised} x trees of 1-3 leaves rank 1..4 (dims up to 9, unit dims) x block {4,8} x merging on/off x skip rules x "
-        "start {0,2} x 6-step histories with scale 1e-2..1e2 and a zero-gradient step; Tearfree: graft {SGD,RMSPROP,ADAFACTOR,NONE} x "
-        "{Shampoo, Sketchy} x start {0,2} x rank-1 / dim-threshold masking.  evaluations = (leaf, step) observations; non-trivial = case "
+        "pmap int16-quantised, sharded 2-device mesh} x trees of 1-3 leaves rank 1..4 (dims up to 9, unit dims) x block {4,8} x merging on/off x skip rules x "
+        "start {0,2} x 6-step histories with scale 1e-2..1e2 (30% entry-sparse with exact zeros) and a zero-gradient step; Tearfree: graft {SGD,RMSPROP,ADAFACTOR,NONE} x "
+        "{Shampoo, Sketchy} x start {0,2} x rank-1 / dim-threshold masking x preconditioner frequency {1,3} x {dense, row-sparse embedding-like} histories.  evaluations = (leaf, step) observations; non-trivial = case "
         "with a post-start observation on a preconditioned leaf; distinct by hash of the case")
 ASSUMPTIONS = ["momentum, Nesterov and weight decay disabled and lr=1 so the returned update is minus the pre-momentum update",
                "norm identity checked to 2e-5 relative (float32); direction checked componentwise against the reference application with its running error bound"]
@@ -37,14 +37,14 @@ MIN_NONTRIVIAL = 30
 MAX_SKIP_FRACTION = 0.4
 TIMEOUT = {"quick": 1500, "thorough": 7200}
 SHAPES = [(5,), (7,), (9, 6), (6, 1), (1, 7), (4, 3), (3, 8, 2), (2, 3, 4), (3, 1, 2, 2), (2, 2, 2, 3), (8, 8), (9, 2)]
-REPS = ["full", "comp+", "comp-", "pmapq", "full"]
+REPS = ["full", "comp+", "comp-", "pmapq", "full", "sharded"]
 
 
 def shards(tier, seed):
   n = 10 if tier == "quick" else 150
   out = []
   for i in range(11):
-    out.append({"name": "ds%d" % i, "env": {"x64": True, "devices": 1}, "kind": "ds", "n": n, "budget_s": 1200 if tier == "quick" else 6500})
+    out.append({"name": "ds%d" % i, "env": {"x64": True, "devices": 2}, "kind": "ds", "n": n, "budget_s": 1200 if tier == "quick" else 6500})
   for i in range(3):
     out.append({"name": "fd%d" % i, "env": {"x64": False, "devices": 1}, "kind": "fd", "n": n, "budget_s": 1200 if tier == "quick" else 6500})
   for i in range(2):
@@ -73,7 +73,7 @@ def gen_case(rng, kind):
   elif rep == "fd":
     cfg.update(compression_rank=int(rng.choice([1, 2])), frequent_directions=True, reuse_preconditioner=True,
                statistics_compute_steps=cfg["preconditioning_compute_steps"])
-  return {"cfg": cfg, "tree": tree, "rep": rep, "T": 6, "hseed": int(rng.integers(0, 2 ** 31))}
+  return {"cfg": cfg, "tree": tree, "rep": rep, "T": 6, "sparse": bool(rng.random() < 0.3), "hseed": int(rng.integers(0, 2 ** 31))}
 
 
 def materialize(case):
@@ -82,7 +82,7 @@ def materialize(case):
             [{k: np.asarray(v, np.float32) for k, v in g.items()} for g in case["grads"]])
   rng = np.random.default_rng(case["hseed"])
   params = W.gen_params(rng, case["tree"])
-  hist = W.gen_history(rng, case["tree"], case["T"], "scales")
+  hist = W.gen_history(rng, case["tree"], case["T"], "sparse" if case.get("sparse") else "scales")
   zt = int(rng.integers(1, case["T"]))
   hist[zt] = {k: v * 0 for k, v in hist[zt].items()}
   return params, hist
@@ -114,10 +114,10 @@ def check_ds(case, rec):
   wit = dict(case, params=params, grads=hist)
   cfg = R.Cfg(**{k: v for k, v in cfgd.items() if k not in ("compression_rank", "frequent_directions", "reuse_preconditioner")})
   cr = cfgd.get("compression_rank", 0)
-  mode = "pmapq" if rep == "pmapq" else "jit"
+  mode = "pmapq" if rep == "pmapq" else ("sharded" if rep == "sharded" else "jit")
   known = H.known_c07_mechanisms()
   try:
-    run = H.Runner(cfgd, params, mode, 1)
+    run = H.Runner(cfgd, params, mode, 2 if mode == "sharded" else 1)
   except Exception as e:  # pylint: disable=broad-except
     kind, where = H.classify_exception(e)
     if kind == "reject":
@@ -167,7 +167,7 @@ def check_ds(case, rec):
         continue
       nontrivial = True
       a, b = pre["params"][k], post["params"][k]
-      dense = [R.dense_of_stored(pm, cr) for pm in b["precs"]]
+      dense = [R.dense_of_stored(pm, cr) for pm in (a if mode == "sharded" else b)["precs"]]
       rec.count("packed_axes_seen", sum(d["packed"] for d in dense))
       rec.count("has_zeros_axes_seen", sum(d["has_zeros"] for d in dense))
       ds0 = a["diag_stats"] if a["diag_stats"] is not None else 0.0
@@ -197,7 +197,7 @@ def check_ds(case, rec):
                       "step %d leaf %s %s graft %d (%s): update is not parallel to the stored preconditioner applied to the gradient (cos %.6f, %.3g x bound)" % (
                           t, k, shape, cfg.graft_type, rep, cos, ratio), wit)
         return
-  rec.case(util.key_hash({k: case[k] for k in ("cfg", "tree", "rep", "hseed")}), nontrivial,
+  rec.case(util.key_hash({k: case.get(k) for k in ("cfg", "tree", "rep", "hseed", "sparse")}), nontrivial,
            sample={"cfg": cfgd, "tree": tree, "rep": rep})
   rec.count("cases_" + rep)
   rec.count("graft_%d" % cfg.graft_type)
@@ -210,7 +210,10 @@ def gen_tf_case(rng):
   return {"kind": "tf", "tree": {"p%d" % j: list(shapes[int(rng.integers(0, len(shapes)))]) for j in range(n)},
           "graft": str(rng.choice(["sgd", "rmsprop", "adafactor", "none"])), "second": str(rng.choice(["shampoo", "sketchy"])),
           "start": int(rng.choice([0, 2])), "decay": float(rng.choice([0.9, 1.0, 0.99])), "skip_rank1": bool(rng.integers(0, 2)),
-          "dim_gt": int(rng.choice([4096, 6])), "eps": float(rng.choice([1e-8, 1e-3])), "T": 6, "hseed": int(rng.integers(0, 2 ** 31))}
+          "dim_gt": int(rng.choice([4096, 6])), "eps": float(rng.choice([1e-8, 1e-3])), "T": 6, "hseed": int(rng.integers(0, 2 ** 31)),
+          # embedding-like gradients (only some rows non-zero, changing over time) with a preconditioner refreshed every 3 steps:
+          # a newly active row is unseen by the pseudo-inverse root, so the preconditioned gradient is exactly zero there
+          "rowsparse": bool(rng.random() < 0.35), "pfreq": int(rng.choice([1, 3]))}
 
 
 def check_tf(case, rec):
@@ -228,6 +231,13 @@ def check_tf(case, rec):
     params = W.gen_params(rng, tree)
     hist = W.gen_history(rng, tree, case["T"], "scales", -1, 1)
     hist[3] = {k: v * 0 for k, v in hist[3].items()}
+    if case.get("rowsparse"):
+      for t, g in enumerate(hist):
+        for k, v in g.items():
+          if v.ndim >= 2:
+            keep = np.zeros(v.shape[0], bool)
+            keep[t % v.shape[0]] = True
+            hist[t][k] = (v * keep.reshape((-1,) + (1,) * (v.ndim - 1))).astype(np.float32)
   wit = dict(case, params=params, grads=hist)
   gtype = {"sgd": grafting.GraftingType.SGD, "rmsprop": grafting.GraftingType.RMSPROP,
            "adafactor": grafting.GraftingType.ADAFACTOR, "none": grafting.GraftingType.NONE}[case["graft"]]
@@ -240,7 +250,8 @@ def check_tf(case, rec):
     so = second_order.Options(merge_dims=2, second_order_type=second_order.SecondOrderType.SKETCHY, shampoo_options=None,
                               sketchy_options=sketchy.Options(rank=2, second_moment_decay=0.9))
   else:
-    so = second_order.Options(merge_dims=2, shampoo_options=tshampoo.Options(block_size=4, second_moment_decay=0.9))
+    so = second_order.Options(merge_dims=2, shampoo_options=tshampoo.Options(block_size=4, second_moment_decay=0.9,
+                                                                             update_preconditioners_freq=case.get("pfreq", 1)))
   gopts = grafting.Options(grafting_type=gtype, second_moment_decay=decay, start_preconditioning_step=case["start"],
                            epsilon=case["eps"], skip_preconditioning_rank1=case["skip_rank1"],
                            skip_preconditioning_any_dim_gt=case["dim_gt"], min_dim_size_to_factor=4,
@@ -315,8 +326,9 @@ def check_tf(case, rec):
           return
         continue
       rec.count("tf_norm_checked")
-      if nb == 0:
-        if nu != 0:
+      if nb <= 1e-30 * max(1.0, np.linalg.norm(gk)):
+        rec.count("tf_zero_direction_seen")
+        if nu > 1e-20 * max(1.0, np.linalg.norm(gk)):
           rec.violation("tf-nonzero-update-for-zero-direction", "Tearfree: zero direction but update norm %.3g" % nu, wit)
           return
         continue
